@@ -134,7 +134,29 @@ fn complex(depth: u32) -> BoxedStrategy<Cx> {
 }
 
 fn cases() -> impl Strategy<Value = Case> {
-    proptest::collection::vec(proptest::collection::vec(complex(2), 1..4), 1..4).prop_map(|levels| Case { levels })
+    (proptest::collection::vec(proptest::collection::vec(complex(2), 1..4), 1..4), proptest::collection::vec(any::<bool>(), 12)).prop_map(|(mut levels, amp)| {
+        // below the outermost level, some members continue the parent compound: `&%p`, `&.a:not(%q)` (the first
+        // compound must not start with a type selector then)
+        // (only under a single parent selector: with several parents and a mix of `&` and descendant members the order
+        // of the product is C19's subject, and it differs between a list and the same list with members removed)
+        let mut k = 0;
+        let single_parent = levels.first().is_some_and(|l| l.len() == 1);
+        let n_levels = levels.len();
+        for (li, level) in levels.iter_mut().enumerate().skip(1) {
+            if !single_parent || (li + 1 < n_levels && level.len() != 1) {
+                break;
+            }
+            for member in level.iter_mut() {
+                let first = &mut member.comps[0];
+                let typed = matches!(first.first(), Some(Simple::Plain(t)) if t.starts_with(|c: char| c.is_ascii_alphabetic()));
+                if !typed && amp[k % amp.len()] && k % 3 == 0 {
+                    first.insert(0, Simple::Plain("&".into()));
+                }
+                k += 1;
+            }
+        }
+        Case { levels }
+    })
 }
 
 fn source(levels: &[Vec<String>]) -> String {
@@ -165,7 +187,7 @@ impl Prop for C22 {
         C22
     }
     fn rule(&self) -> String {
-        "nests of 1..3 style rules whose selector lists (1..3 complex selectors of 1..2 compounds) mix ordinary simple selectors, placeholders %p/%q and :not/:is/:where/:matches/:any/:has/::slotted/:host with selector-list arguments nested two deep, placeholders at any depth. Oracle: (1) no `%` in any emitted selector; (2) metamorphic: the output must equal the output of the same nest written with the reference-filtered selector lists (a complex selector with a top-level placeholder is removed; a positive pseudo loses placeholder members and kills the selector when none is left; :not loses them and disappears when empty), rule by rule after the independent canonicaliser; when a level filters to nothing, that rule and everything nested in it must be absent. Non-trivial: a placeholder inside a pseudo argument, or a list that loses some but not all members; distinct by nest".into()
+        "nests of 1..3 style rules whose selector lists (1..3 complex selectors of 1..2 compounds) mix ordinary simple selectors, placeholders %p/%q and :not/:is/:where/:matches/:any/:has/::slotted/:host with selector-list arguments nested two deep, placeholders at any depth; below the outermost rule some members continue the parent compound with `&` (`&%p`, `&.a:not(%q)`). Oracle: (1) no `%` in any emitted selector; (2) metamorphic: the output must equal the output of the same nest written with the reference-filtered selector lists (a complex selector with a top-level placeholder is removed; a positive pseudo loses placeholder members and kills the selector when none is left; :not loses them and disappears when empty), rule by rule after the independent canonicaliser; when a level filters to nothing, that rule and everything nested in it must be absent. Non-trivial: a placeholder inside a pseudo argument, or a list that loses some but not all members; distinct by nest".into()
     }
     fn phases(&self, tier: Tier) -> Vec<Phase<Case>> {
         vec![Phase::random("nests", cases(), tier.pick(30_000, 1_500_000))]
